@@ -246,18 +246,14 @@ theorem chunks_of_leaves (cfg : Cfg) (I : Interner) (r' : Red) (rg : Nat × Nat)
       simp only [chunkOf, h2, Option.bind_some]
       cases tokenText cfg I x.2.2 <;> rfl
 
-/-- **the chunks of a view are the slice of the node's text**: on a canonical red tree, for any view of a
-    node whose slice of the node's text exists (`&text[a..b]` does not panic), the concatenation of the
-    chunks the view's queries run over is exactly that slice -/
-theorem chunks_tree (cfg : Cfg) (I : Interner) (r : Red) (hr : RInv r) (hcl : Closed r) (v : View)
+/-- the chunk list of a view of a node of a canonical red tree is the per-token cut of the node's token texts -/
+theorem chunks_tree_eq (cfg : Cfg) (I : Interner) (r : Red) (hr : RInv r) (hcl : Closed r) (v : View)
     (g : Green) (base : Nat) (hg : r.green v.node = some g) (hs : r.start v.node = some base)
-    (hw : GWf cfg I g) (hab : v.range.1 ≤ v.range.2) (x : Text) :
-    ∃ tg, resolveG cfg I g = some tg ∧
-      (sliceBytes tg.text (v.range.1 - base) (v.range.2 - base) = some x →
-        chunksConcat (r.chunks cfg I v).1 = some x) := by
+    (hw : GWf cfg I g) :
+    ∃ tg ts, resolveG cfg I g = some tg ∧ ts.flatten = tg.text ∧
+      (r.chunks cfg I v).1 = cut v.range.1 v.range.2 base ts := by
   obtain ⟨hleaf, tg, hres, hflat⟩ := leaves_text cfg I g v.node base hw
-  refine ⟨tg, hres, ?_⟩
-  intro hslice
+  refine ⟨tg, _, hres, hflat, ?_⟩
   -- the walk
   have hm : Mat r v.node := ⟨base, hs⟩
   have hspec := preorderWithTokens_spec r hcl v.node g hm hg
@@ -304,8 +300,49 @@ theorem chunks_tree (cfg : Cfg) (I : Interner) (r : Red) (hr : RInv r) (hcl : Cl
   rw [chunks_of_leaves cfg I _ v.range (leaves v.node base g) hranges]
   have hlen : LenOk g := by have := hr.lens; exact LenOk_get this hgr
   rw [cutL_eq_cut cfg I v.range.1 v.range.2 (leaves v.node base g) base (base + g.len) (leaves_chain g v.node base hlen) hleaf]
+
+/-- **the chunks of a view are the slice of the node's text**: on a canonical red tree, for any view of a
+    node whose slice of the node's text exists (`&text[a..b]` does not panic), the concatenation of the
+    chunks the view's queries run over is exactly that slice -/
+theorem chunks_tree (cfg : Cfg) (I : Interner) (r : Red) (hr : RInv r) (hcl : Closed r) (v : View)
+    (g : Green) (base : Nat) (hg : r.green v.node = some g) (hs : r.start v.node = some base)
+    (hw : GWf cfg I g) (hab : v.range.1 ≤ v.range.2) (x : Text) :
+    ∃ tg, resolveG cfg I g = some tg ∧
+      (sliceBytes tg.text (v.range.1 - base) (v.range.2 - base) = some x →
+        chunksConcat (r.chunks cfg I v).1 = some x) := by
+  obtain ⟨tg, ts, hres, hflat, heq⟩ := chunks_tree_eq cfg I r hr hcl v g base hg hs hw
+  refine ⟨tg, hres, fun hslice => ?_⟩
+  rw [heq]
   apply cut_spec v.range.1 v.range.2 hab
   rw [hflat]
   exact hslice
+
+/-- **and only then**: for a view inside the node's range, if the whole-text query over the chunks succeeds, the slice of
+    the node's text exists and is the result; so a view cut inside a character (the slice would panic) makes `to_string`
+    and every query that reaches the cut panic -/
+theorem chunks_tree_conv (cfg : Cfg) (I : Interner) (r : Red) (hr : RInv r) (hcl : Closed r) (v : View)
+    (g : Green) (base : Nat) (hg : r.green v.node = some g) (hs : r.start v.node = some base)
+    (hw : GWf cfg I g) (hab : v.range.1 ≤ v.range.2) :
+    ∃ tg, resolveG cfg I g = some tg ∧
+      (v.range.2 ≤ base + blen tg.text → ∀ x, chunksConcat (r.chunks cfg I v).1 = some x →
+        sliceBytes tg.text (v.range.1 - base) (v.range.2 - base) = some x) := by
+  obtain ⟨tg, ts, hres, hflat, heq⟩ := chunks_tree_eq cfg I r hr hcl v g base hg hs hw
+  refine ⟨tg, hres, fun hin x hc => ?_⟩
+  rw [heq] at hc
+  rw [← hflat] at hin ⊢
+  exact cut_spec_conv v.range.1 v.range.2 hab ts base x hc hin
+
+/-- a view whose slice of the node's text does not exist (an end inside a character) panics when read as a whole -/
+theorem chunks_tree_panics (cfg : Cfg) (I : Interner) (r : Red) (hr : RInv r) (hcl : Closed r) (v : View)
+    (g : Green) (base : Nat) (hg : r.green v.node = some g) (hs : r.start v.node = some base)
+    (hw : GWf cfg I g) (hab : v.range.1 ≤ v.range.2) :
+    ∃ tg, resolveG cfg I g = some tg ∧
+      (v.range.2 ≤ base + blen tg.text → sliceBytes tg.text (v.range.1 - base) (v.range.2 - base) = none →
+        chunksConcat (r.chunks cfg I v).1 = none) := by
+  obtain ⟨tg, hres, h⟩ := chunks_tree_conv cfg I r hr hcl v g base hg hs hw hab
+  refine ⟨tg, hres, fun hin hnone => ?_⟩
+  cases hc : chunksConcat (r.chunks cfg I v).1 with
+  | none => rfl
+  | some x => rw [h hin x hc] at hnone; cases hnone
 
 end Cst
